@@ -91,7 +91,15 @@ func StartExec(binary string) (*Exec, error) {
 		defer close(x.errEOF)
 		sc := bufio.NewScanner(se)
 		sc.Buffer(make([]byte, 1<<20), 1<<20)
+		var tee *os.File
+		if d := os.Getenv("VERIF_CHILD_STDERR"); d != "" {
+			tee, _ = os.Create(filepath.Join(d, fmt.Sprintf("child-%d-%d.stderr", os.Getpid(), cmd.Process.Pid)))
+			defer tee.Close()
+		}
 		for sc.Scan() {
+			if tee != nil {
+				tee.WriteString(sc.Text() + "\n")
+			}
 			x.errMu.Lock()
 			// keep the head (where a panic / fatal error announces itself)
 			// and a sliding tail
